@@ -240,7 +240,8 @@ class DeprecatedOptions:
         def _opt_defined(opt):
             if opt.orig_type == BOOL and opt.str_value != "n":
                 return True
-            elif opt.orig_type in (INT, STRING, HEX, FLOAT) and opt.str_value != "":
+            elif opt.orig_type in (INT, STRING, HEX, FLOAT) and opt.config_string:
+                # defined in the header whenever it is written out, also with an empty string value
                 return True
             return False
 
